@@ -6,6 +6,7 @@
 \*   {"e":"race","ds":[decl..],"errs":[res..]}      concurrent RegisterEndpoint calls
 \*   {"e":"mod","on":bool}                          the module was taken online / offline
 \*   {"e":"req","q":{request},"ob":{st,ct,body,inv,input,rbody,vars,xh,rl,err}}   one HTTP round trip
+\*   {"e":"reqstart","q":{request},"ob":{...}}     a round trip that began while the module was starting
 \*   {"e":"list","via":"http|export","ob":{st,ct,entries,err}}   the registry as exported, own prefix only
 \*   {"e":"bypath","p":id,"found":bool,"entry":{...}}              GetEndpointByPath
 EXTENDS ApiEp, Json
@@ -54,6 +55,13 @@ Req == /\ At("req")
        /\ UNCHANGED st
        /\ l' = l + 1
 
+\* the request arrived while the module was starting and the start completed within the waiting time:
+\* it is answered as with the module online
+ReqStart == /\ At("reqstart")
+            /\ ReqOK([st EXCEPT !.online = TRUE], Ev.q, Ev.ob)
+            /\ st' = [st EXCEPT !.online = TRUE]
+            /\ l' = l + 1
+
 List == /\ At("list")
         /\ ListOK(st, Ev.ob)
         /\ UNCHANGED st
@@ -64,7 +72,7 @@ ByPath == /\ At("bypath")
           /\ UNCHANGED st
           /\ l' = l + 1
 
-Next == New \/ Reg \/ Race \/ Mod \/ Req \/ List \/ ByPath
+Next == New \/ Reg \/ Race \/ Mod \/ Req \/ ReqStart \/ List \/ ByPath
 Spec == Init /\ [][Next]_vars
 
 Accepted == TLCGet("stats").diameter - 1 = Len(Trace)
